@@ -1,7 +1,11 @@
 """C12 — full matching partitions the peaks and returns self-consistent matches."""
 import warnings
+from fractions import Fraction
 
 import numpy as np
+
+from common import rat
+from props.lat import rats, fr
 
 import libertem_blobfinder.common.gridmatching as grm
 from libertem_blobfinder.common import fullmatch as fm
@@ -150,6 +154,12 @@ def matcher_of(p):
                           min_points=p["min_points"], min_delta=p["min_delta"], max_delta=p["max_delta"])
 
 
+def float_errors(pts, zero, a, b):
+    ind = np.linalg.solve(np.array((a, b)).T, (pts - zero).T).T
+    d = np.abs(ind - np.around(ind)) * (np.linalg.norm(a), np.linalg.norm(b))
+    return np.linalg.norm(d / np.maximum(1, np.abs(ind)) ** 0.5, axis=1)
+
+
 def corr(ctx, drv):
     rng = np.random.default_rng(ctx.seed + 12)
     n = 80 if ctx.tier == "thorough" else 20
@@ -190,6 +200,63 @@ def corr(ctx, drv):
                     msgs.append(f"match {i}: impl {sel_bits(mt.selector)} model {mo[3 + i]}")
         ctx.corr_case("loop", p, msgs, nontrivial=(len(matches) > 0 and (unmatched.selector.any() or weak.selector.any())))
         ctx.count("kind_" + p["kind"])
+    # one candidate pair of _do_match (_match_all + _tumble) against the exact rational model `Model.tumble`
+    for k in range(3 * n):
+        p = gen(rng, k)
+        if p["kind"] == "random":
+            continue
+        pts, elev = np.asarray(p["pts"], dtype=np.float64), np.asarray(p["elev"], dtype=np.float64)
+        s_ = [0.0, 0.3, 1.0][k % 3]
+        ca = np.asarray(p["true_a"]) + rng.uniform(-1, 1, 2) * s_
+        cb = np.asarray(p["true_b"]) + rng.uniform(-1, 1, 2) * s_
+        z = np.asarray(p["zero"], dtype=np.float64)
+        m = matcher_of(p)
+        corr_ = grm.CorrelationResult(pts, pts, np.ones(len(pts)), elev)
+        sel = grm.PointSelection(corr_, selector=elev >= 0.1)
+        with warnings.catch_warnings():
+            warnings.simplefilter("ignore")
+            try:
+                mt = m._match_all(point_selection=sel, zero=z, a=ca, b=cb)
+                n1 = len(mt)
+                mt = m._tumble(sel, mt)
+            except np.linalg.LinAlgError:
+                mt, n1 = None, -1
+            except Exception as e:
+                ctx.corr_case("tumble", p, [f"_tumble raised {type(e).__name__}: {e}"])
+                continue
+        maxd = "inf" if not np.isfinite(p["max_delta"]) else rat(Fraction(float(p["max_delta"])) ** 2)
+        sin2 = Fraction(float(np.sin(p["min_angle"]))) ** 2
+        line = (f"tumble {rat(p['tolerance'])} {rat(0.1)} {p['min_match']} {rat(Fraction(float(p['min_delta'])) ** 2)} {maxd} "
+                f"{rat(sin2)} {rats(z)} {rats(ca)} {rats(cb)} " + rats(np.column_stack([pts, elev])))
+        mo = drv.ask(line)
+        msgs = []
+        # the comparison is suspended next to a decision boundary of the float computation (tolerance, length limits, angle)
+        def near_boundary(z_, a_, b_):
+            e = float_errors(pts, z_, a_, b_)
+            la, lb = np.linalg.norm(a_), np.linalg.norm(b_)
+            ang = abs(np.arctan2(a_[0], a_[1]) - np.arctan2(b_[0], b_[1])) % np.pi
+            lim = [p["min_delta"]] + ([p["max_delta"]] if np.isfinite(p["max_delta"]) else [])
+            return bool(np.any(np.abs(e - p["tolerance"]) < 1e-6) or any(abs(l_ - q) < 1e-6 for l_ in (la, lb) for q in lim)
+                        or abs(ang - p["min_angle"]) < 1e-6 or abs(ang - (np.pi - p["min_angle"])) < 1e-6)
+        border = near_boundary(z, ca, cb) or (mt is not None and near_boundary(mt.zero, mt.a, mt.b))
+        if mo == "degenerate" or border:
+            ctx.count("tumble_suspended")
+        elif mo == "none":
+            if mt is not None:
+                msgs.append(f"model: no match from this candidate pair, impl: selector {sel_bits(mt.selector)}")
+        else:
+            head, selbits, idx = mo.split(" | ")
+            v = np.array([float(x) for x in fr(head[len("some "):])])
+            if mt is None:
+                msgs.append(f"model: match with selector {selbits}, impl: None")
+            elif sel_bits(mt.selector) != selbits:
+                msgs.append(f"selector differs: impl {sel_bits(mt.selector)} model {selbits}")
+            elif [int(x) for x in idx.split()] != np.asarray(mt.indices).astype(int).ravel().tolist():
+                msgs.append("indices differ")
+            elif np.abs(np.concatenate([mt.zero, mt.a, mt.b]) - v).max() > 1e-6 * max(1.0, np.abs(v).max()):
+                msgs.append(f"lattice differs: impl {np.concatenate([mt.zero, mt.a, mt.b]).tolist()} model {v.tolist()}")
+        ctx.corr_case("tumble", p, msgs, nontrivial=(mo.startswith("some") and "0" in mo.split(" | ")[1]))
+        ctx.count("tumble_" + mo.split()[0])
 
 
 def run_case(kind, p):
